@@ -22,6 +22,7 @@ import (
 	"reflect"
 	"runtime"
 	"runtime/debug"
+	"runtime/pprof"
 	"sort"
 	"strconv"
 	"strings"
@@ -687,6 +688,8 @@ func (w *worker) result(done bool, rec *runawayRec, resume shardState) *ev.Worke
 	return res
 }
 
+var stopProfile = func() {}
+
 func workerMain(run *ev.Run, shard, n int) {
 	var states []shardState
 	json.Unmarshal([]byte(os.Getenv("VERIF_C11_STATE")), &states)
@@ -735,6 +738,12 @@ func workerMain(run *ev.Run, shard, n int) {
 	if pf := os.Getenv("VERIF_C11_PROGRESS"); pf != "" {
 		w.progress, _ = os.OpenFile(pf, os.O_CREATE|os.O_RDWR, 0o644)
 	}
+	if pf := os.Getenv("VERIF_C11_CPUPROFILE"); pf != "" { // debugging aid
+		if f, err := os.Create(fmt.Sprintf("%s.%d", pf, shard)); err == nil {
+			pprof.StartCPUProfile(f)
+			stopProfile = pprof.StopCPUProfile
+		}
+	}
 	go w.watchdog()
 	capped := false
 	for ; pos < len(own); pos++ {
@@ -760,6 +769,7 @@ func workerMain(run *ev.Run, shard, n int) {
 		u.run(w, from)
 	}
 	w.limit.Store(0)
+	stopProfile()
 	res := w.result(true, nil, shardState{Done: true})
 	if capped {
 		res.Caps = append(res.Caps, fmt.Sprintf("deadline: shard %d stopped before unit %d of %d (%s)", shard, pos, len(own), p.units[own[pos]].phase))
